@@ -206,6 +206,25 @@ func runC10(r *fw.Run) {
 			r.Count("aborts_during_big_reply", 1)
 			r.Case(fw.Hash("big", fmt.Sprint(k, ci)), true)
 		}
+		// a client that stalls (neither reads nor closes) in the middle of a multi-MiB reply must not disturb the others
+		for k := 0; k < r.Pick(3, 20) && !g.tainted && r.ViolationCount() <= 12; k++ {
+			big := &CallScript{ID: fmt.Sprintf("stallbig%d", k), Pad: json.RawMessage(jg.BigString(4 << 20)), Steps: []Step{{Op: "reply", Cont: true}, {Op: "reply"}}}
+			data, _, _ := streamOf([]GenCall{{Method: "org.example.script.Big", Flags: "m", Script: big}}, 0)
+			cc := &c01Case{Transport: cf.tr, UseListen: cf.listen, Ifaces: c01Ifaces}
+			cc.Conns = append(cc.Conns, &ConnScript{Stream: data, Cut: -1, Stall: true, What: "stalled reader during a 4 MiB reply"})
+			for j := 0; j < 3; j++ {
+				good++
+				cs := genConnScript(rng, jg, fmt.Sprintf("g%d", good), 4, false)
+				cs.WaitFor = big.ID
+				cc.Conns = append(cc.Conns, cs)
+			}
+			cc.Conns = append(cc.Conns, &ConnScript{Stream: streams[k%len(streams)], Cut: -1, Hard: true, WaitFor: big.ID, What: whats[k%len(streams)]})
+			r.Journal(0, map[string]string{"what": "stalled reader"})
+			c01Round(r, g, "C10", cc, true)
+			r.Done(0)
+			r.Count("stalled_reader_rounds", 1)
+			r.Case(fw.Hash("stallbig", fmt.Sprint(k, ci)), true)
+		}
 		// an 8 MiB frame without NUL, then abort
 		if r.Thorough || ci == 0 {
 			S := []byte(`{"method":"org.example.script.M","parameters":{"pad":` + jg.BigString(8<<20))
